@@ -4,11 +4,14 @@ EXTENDS Stats
 NoVal == 100000
 \* truth: [cdps, pht, version, chips (count per outer-barrel lane), order (sequence of chip ids)], stave: its-stave mode
 \* ob: the data is from the outer barrel (the chip count / chip order keys are outer-barrel rules: on inner-barrel data they change nothing)
-ExpectedCodes(cfg, truth, stave, ob) ==
+\* checking: a check command runs (the RDH version is a rule of the RDH checks; the two counts are compared at the end of EVERY run - checks, views,
+\* filtered writing - with what that run collected)
+ExpectedCodesIn(cfg, truth, stave, ob, checking) ==
        (IF cfg.cdps # NoVal /\ cfg.cdps # truth.cdps THEN {"9001"} ELSE {})
   \cup (IF cfg.pht # NoVal /\ cfg.pht # truth.pht THEN {"9002"} ELSE {})
-  \cup (IF cfg.version # NoVal /\ cfg.version # truth.version THEN {"10"} ELSE {})
+  \cup (IF checking /\ cfg.version # NoVal /\ cfg.version # truth.version THEN {"10"} ELSE {})
   \cup (IF stave /\ ob /\ cfg.chips # NoVal /\ cfg.chips # truth.chips THEN {"9004"} ELSE {})
   \cup (IF stave /\ ob /\ cfg.orders # << >> /\ (cfg.chips = NoVal \/ cfg.chips = truth.chips)
            /\ ~(\E i \in 1..Len(cfg.orders) : cfg.orders[i] = truth.order) THEN {"9005"} ELSE {})
+ExpectedCodes(cfg, truth, stave, ob) == ExpectedCodesIn(cfg, truth, stave, ob, TRUE)
 ================================================================================
